@@ -5,9 +5,12 @@
      ANY two geometries satisfying `GeoOK` (pool capacity ≥ 1, initial pools ≥ 1, any id size, any slot/pool/string
      overhead sizes), end with the same abstract value: the value computed by the geometry-free tree machine `DL.ARun`.
    * `C19.below_limit_succeeds_pool` / `C19.below_limit_succeeds`: "stays below the limits" implies the success hypothesis
-     of `HistA` for slot allocations. -/
+     of `HistA` for slot allocations. The limits are: slot ids left, allocator oracle, and the string-length limit
+     `Doc.maxStrLen` for a copied member key (`KeyFits`; a copied string VALUE beyond the limit makes `put` report failure,
+     which `Op2.Valid` excludes). -/
 import AJ.Props.C14Hist
 import AJ.Props.C19
+import AJ.Lemmas.DocAlloc
 namespace C19
 open DL C04
 open JD (Byte Val)
@@ -70,14 +73,18 @@ theorem addElement_succeeds {d : Doc} (l : Loc) (gok : PL.GeoOK d.g) (hI : PL.In
   obtain ⟨id, d', h, _⟩ := allocVariant_succeeds (n := 0) gok hI hN hM hlim ho
   simp only [Doc.addElement, h]; exact fun e => by cases e
 
-/-- … and `addMember` (two slots, and one block for a copied key that is not yet in the string table) returns a slot -/
+/-- … and `addMember` (two slots, and one block for a copied key that is not yet in the string table) returns a slot,
+    when a copied key is within the string-length limit `maxStrLen` -/
 theorem addMember_succeeds {d : Doc} (l : Loc) (key : List Byte) (linked : Bool) (gok : PL.GeoOK d.g)
     (hI : PL.Inv d.g d.pl) (hN : PL.Nominal d.g d.pl) (hM : 1 ≤ d.g.maxPools)
-    (hlim : (PL.liveIds d.g d.pl).length + 1 < d.g.nullSlot) (ho : OracleOK d.pl 5) :
+    (hlim : (PL.liveIds d.g d.pl).length + 1 < d.g.nullSlot) (ho : OracleOK d.pl 5)
+    (hkey : linked = false → key.length ≤ d.maxStrLen) :
     (d.addMember l key linked).1 ≠ none := by
   obtain ⟨k, d1, h1, g1, I1, N1, L1, O1, _⟩ := allocVariant_succeeds (n := 3) gok hI hN hM (by omega) ho
   obtain ⟨v, d2, h2, g2, I2, N2, L2, O2, _⟩ := allocVariant_succeeds (n := 1) (d := d1) (by rw [g1]; exact gok) I1 N1
     (by rw [g1]; exact hM) (by rw [L1, g1]; omega) O1
+  have hm1 : d1.maxStrLen = d.maxStrLen := by have := (sameId_allocVariant d).2.2.2; rw [h1] at this; exact this
+  have hm2 : d2.maxStrLen = d1.maxStrLen := by have := (sameId_allocVariant d1).2.2.2; rw [h2] at this; exact this
   simp only [Doc.addMember, h1, h2]
   cases linked with
   | true => simp only [if_true]; exact fun e => by cases e
@@ -86,15 +93,23 @@ theorem addMember_succeeds {d : Doc} (l : Loc) (key : List Byte) (linked : Bool)
     cases hf : d2.strings.find? (·.bytes == key) with
     | some x => rw [saveString_found hf]; exact fun e => by cases e
     | none =>
-      rw [saveString_new hf, if_neg (by rw [O2 _ (by omega) (by omega)]; exact fun e => by cases e)]
+      rw [saveString_short hf (by rw [hm2, hm1]; exact hkey rfl),
+        if_neg (by rw [O2 _ (by omega) (by omega)]; exact fun e => by cases e)]
       exact fun e => by cases e
 
+/-- the step stays below the string-length limit: a COPIED member key is at most `maxStrLen` bytes long (a copied string
+    VALUE beyond the limit is already excluded by `Op2.Valid`: `put` reports success) -/
+def KeyFits (d : Doc) : Op2 → Prop
+  | .member _ key linked => linked = false → key.length ≤ d.maxStrLen
+  | _ => True
+
 /-- "STAYS BELOW THE LIMITS" IMPLIES THE SUCCESS HYPOTHESIS of `C04.HistA`, step by step: for a valid operation on a
-    document whose pool list is `Nominal`, with at least two slot ids left below `nullSlot` and an oracle that lets the
-    next five allocator calls through, every allocation of the step succeeds (`Op2.Succ`). -/
+    document whose pool list is `Nominal`, with at least two slot ids left below `nullSlot`, an oracle that lets the
+    next five allocator calls through and a copied key within the string-length limit, every allocation of the step
+    succeeds (`Op2.Succ`). -/
 theorem below_limit_succeeds {d : Doc} {F : Forest} {op : Op2} (hv : op.Valid d F) (gok : PL.GeoOK d.g)
     (hI : PL.Inv d.g d.pl) (hN : PL.Nominal d.g d.pl) (hM : 1 ≤ d.g.maxPools)
-    (hlim : (PL.liveIds d.g d.pl).length + 1 < d.g.nullSlot) (ho : OracleOK d.pl 5) : op.Succ d := by
+    (hlim : (PL.liveIds d.g d.pl).length + 1 < d.g.nullSlot) (ho : OracleOK d.pl 5) (hk : KeyFits d op) : op.Succ d := by
   cases op with
   | base op =>
     cases op with
@@ -109,6 +124,8 @@ theorem below_limit_succeeds {d : Doc} {F : Forest} {op : Op2} (hv : op.Valid d 
     rw [getOrAddMember_eq]
     have hg' : (toObj d l).g = d.g := by simp only [toObj]; split <;> first | exact set_g _ _ _ | rfl
     have hp' : (toObj d l).pl = d.pl := by simp only [toObj]; split <;> first | exact set_pl _ _ _ | rfl
+    have hm' : (toObj d l).maxStrLen = d.maxStrLen := by
+      simp only [toObj]; split <;> first | exact (sameId_set _ _ _).2.2.2 | rfl
     have hg : ∃ h t, (toObj d l).get l = .obj h t := by
       rcases hv.2 with hn | ⟨h, t, hg⟩
       · exact ⟨d.null, d.null, by simp only [toObj, hn, get_set_self]⟩
@@ -120,16 +137,18 @@ theorem below_limit_succeeds {d : Doc} {F : Forest} {op : Op2} (hv : op.Valid d 
     | none =>
       exact addMember_succeeds l key linked (by rw [hg']; exact gok) (by rw [hg', hp']; exact hI)
         (by rw [hg', hp']; exact hN) (by rw [hg']; exact hM) (by rw [hg', hp']; exact hlim) (by rw [hp']; exact ho)
+        (by rw [hm']; exact hk)
 
 /-! ## Whole histories that stay below the limits -/
 
 /-- `HistB d F as d' F'`: a history of valid operations that STAYS BELOW THE LIMITS — before every step at least two slot
-    ids are left below `nullSlot` and the allocator oracle lets the next five calls through — standing for the abstract
-    operations `as`. Nothing is assumed about the success of any allocation. -/
+    ids are left below `nullSlot`, the allocator oracle lets the next five calls through and a copied key is within the
+    string-length limit (`KeyFits`) — standing for the abstract operations `as`. Nothing is assumed about the success of
+    any allocation. -/
 inductive HistB : Doc → Forest → List AOp → Doc → Forest → Prop
   | nil (d : Doc) (F : Forest) : HistB d F [] d F
   | cons {d : Doc} {F : Forest} {as : List AOp} {d' : Doc} {F' : Forest} (op : Op2) :
-      op.Valid d F → (PL.liveIds d.g d.pl).length + 1 < d.g.nullSlot → OracleOK d.pl 5 →
+      op.Valid d F → (PL.liveIds d.g d.pl).length + 1 < d.g.nullSlot → OracleOK d.pl 5 → KeyFits d op →
       HistB (op.run d) (op.layout d F) as d' F' → HistB d F (op.toA F :: as) d' F'
 
 /-- A history that stays below the limits, from a well-formed document whose pool list is `Nominal` (e.g. has no pool
@@ -138,9 +157,9 @@ theorem below_limit_history {d d' : Doc} {F F' : Forest} {as : List AOp} (h : Hi
     WFG d F → StrOK d (d.strRefs F) → PL.GeoOK d.g → 1 ≤ d.g.maxPools → PL.Nominal d.g d.pl → HistA d F as d' F' := by
   induction h with
   | nil d F => intros; exact HistA.nil d F
-  | cons op hv hlim ho _ ih =>
+  | cons op hv hlim ho hk _ ih =>
     intro w hs gok hM hN
-    have hok := below_limit_succeeds hv gok w.pool hN hM hlim ho
+    have hok := below_limit_succeeds hv gok w.pool hN hM hlim ho hk
     obtain ⟨a, b, c, _⟩ := step_refines2 w hs gok hv
     exact HistA.cons op hv hok (ih a b (by rw [c]; exact gok) (by rw [c]; exact hM) (step_nominal w hs gok hv hok hN))
 
@@ -205,10 +224,16 @@ theorem orc (d : Doc) (h1 : d.pl.failAt = []) (h2 : d.pl.failFrom = none) (n : N
   intro m _ _; simp only [PL.St.failsAt, h1, h2]; rfl
 example : op1.Succ e1 :=
   below_limit_succeeds v1 gok (PL.init_inv gok []) (PL.Nominal_of_no_pools rfl) (by decide +kernel) (by decide +kernel)
-    (orc e1 rfl rfl 5)
+    (orc e1 rfl rfl 5) trivial
 example : kC.Succ eo :=
   below_limit_succeeds (vk false) gok (PL.init_inv gok []) (PL.Nominal_of_no_pools rfl) (by decide +kernel)
-    (by decide +kernel) (orc eo rfl rfl 5)
+    (by decide +kernel) (orc eo rfl rfl 5) (fun _ => by decide +kernel)
+/-- the hypothesis `KeyFits` cannot be dropped: on the empty object with the string-length limit 1 everything else holds
+    (no pool yet, no live slot, no oracle failure) and `root["hi"]` with a copied key fails -/
+example : ¬ kC.Succ { eo with maxStrLen := 1 } ∧ ¬ KeyFits { eo with maxStrLen := 1 } kC ∧
+    OracleOK ({ eo with maxStrLen := 1 } : Doc).pl 5 :=
+  ⟨by show ¬ (({ eo with maxStrLen := 1 } : Doc).getOrAddMember .root hi false).1 ≠ none; decide +kernel,
+   fun h => absurd (h rfl) (by decide +kernel), orc _ rfl rfl 5⟩
 /-- `allocVariant_succeeds` applies twice in a row (the hypotheses are re-established by the conclusion) -/
 example : ∃ k d1 v d2, e1.allocVariant = (some k, d1) ∧ d1.allocVariant = (some v, d2) ∧
     (PL.liveIds d2.g d2.pl).length = 2 := by
@@ -220,14 +245,14 @@ example : ∃ k d1 v d2, e1.allocVariant = (some k, d1) ∧ d1.allocVariant = (s
 
 /-- the two histories stay below the limits of their geometries (255 resp. 65535 slot ids, no oracle failure) -/
 theorem histLB : HistB e1 .nil asA (opL.run dd1) (opL.layout dd1 FF1) := by
-  have h := HistB.cons op1 v1 (by decide +kernel) (orc e1 rfl rfl 5)
-    (HistB.cons opL vL (by decide +kernel) (orc dd1 (by decide +kernel) (by decide +kernel) 5) (HistB.nil _ _))
+  have h := HistB.cons op1 v1 (by decide +kernel) (orc e1 rfl rfl 5) trivial
+    (HistB.cons opL vL (by decide +kernel) (orc dd1 (by decide +kernel) (by decide +kernel) 5) trivial (HistB.nil _ _))
   have e : opL.toA (op1.layout e1 .nil) = .put [0] (.str hi) := by
     show AOp.put (pathOf FF1 (.slot 0)) _ = _; rw [p0]; rfl
   rw [e] at h; exact h
 theorem histCgB : HistB e1g .nil asA (opC.run dd1g) (opC.layout dd1g FF1g) := by
-  have h := HistB.cons op1 v1g (by decide +kernel) (orc e1g rfl rfl 5)
-    (HistB.cons opC vCg (by decide +kernel) (orc dd1g (by decide +kernel) (by decide +kernel) 5) (HistB.nil _ _))
+  have h := HistB.cons op1 v1g (by decide +kernel) (orc e1g rfl rfl 5) trivial
+    (HistB.cons opC vCg (by decide +kernel) (orc dd1g (by decide +kernel) (by decide +kernel) 5) trivial (HistB.nil _ _))
   have e : opC.toA (op1.layout e1g .nil) = .put [0] (.str hi) := by
     show AOp.put (pathOf FF1g (.slot 0)) _ = _; rw [p0g]; rfl
   rw [e] at h; exact h
